@@ -203,7 +203,7 @@ Fixpoint safe_name (fuel : nat) (prefix : str) (case : str -> option str) (name 
   end.
 
 (* the recursion depth CPython allows is about 1000; every terminating call needs at
-   most 12 (Proofs/SafeTerm.v), a non-terminating one exhausts any fuel *)
+   most 15 (Proofs/SafeTerm.v), a non-terminating one exhausts any fuel *)
 Definition safe_fuel : nat := 64.
 
 (* ------------------------------------------------------------------ namespaces.clean_uri *)
